@@ -46,6 +46,17 @@ PROPS = {
 }
 
 
+ALL = ["C%02d" % i for i in range(1, 21)]
+_NA_REASONS = {
+    "C09": "sexp! is a compile-time program over rustc token trees whose output is Rust source; neither Verus nor Kani has a semantics for "
+           "rustc's lexer/quote!, so no contract within reach can state 'the value this token stream evaluates to' (DESIGN §6)",
+    "C16": "stack consumption is not a state either verifier exposes; the mechanism that breaks it (derived Clone/PartialEq/drop glue) has no "
+           "source text to annotate (DESIGN §6)",
+}
+NOT_APPLICABLE = [dict(property_id=p, reason=_NA_REASONS.get(p, "contracts specified in DESIGN.md but not yet discharged by the machinery; not claimed"))
+                  for p in ALL if p not in PROPS]
+
+
 def load_findings():
     p = os.path.join(VERIF, "known_findings.json")
     if not os.path.exists(p):
